@@ -349,6 +349,48 @@ def S_C02d():
 
 
 
+# ---------------------------------------------------------------- C03 (zero-size read path, MINC1 scalar index)
+def S_C03b():
+    """np.asarray(proxy) of a zero-size image must keep the image shape without memory mapping too"""
+    nib = _nib()
+    with tempfile.TemporaryDirectory() as d:
+        for ext in ('z.nii', 'z.nii.gz'):
+            p = os.path.join(d, ext)
+            nib.Nifti1Image(np.zeros((0, 3, 4), 'i2'), np.eye(4)).to_filename(p)
+            for mm in (True, False):
+                if np.asarray(nib.load(p, mmap=mm).dataobj).shape != (0, 3, 4):
+                    return True
+    return False
+
+
+def S_C03c():
+    """MINC1 int16 data: an integers-only index must give the same value as the loaded array"""
+    nib = _nib()
+    from nibabel.externals.netcdf import netcdf_file
+    with tempfile.TemporaryDirectory() as d:
+        p = os.path.join(d, 'm.mnc')
+        shape, names = (2, 3, 4), ('zspace', 'yspace', 'xspace')
+        f = netcdf_file(p, 'w')
+        for nm, ln in zip(names, shape):
+            f.createDimension(nm, ln)
+        for nm in names:
+            v = f.createVariable(nm, 'i', ())
+            v.spacing = b'regular__'
+            v.step = 1.0
+            v.start = 0.0
+        im = f.createVariable('image', 'h', names)
+        im.signtype = b'signed__'
+        im.valid_range = np.array([0, 4095], dtype=np.float64)
+        im[:] = (np.arange(24) * 7 + 300).astype('>i2').reshape(shape)
+        for nm, val in (('image-min', 0.0), ('image-max', 4095.0)):
+            v = f.createVariable(nm, 'd', ())
+            v[...] = val
+        f.close()
+        img = nib.load(p)
+        full = np.asarray(img.dataobj)
+        return bool(img.dataobj[1, 2, 3] != full[1, 2, 3] or img.dataobj[0, 0, 0] != full[0, 0, 0])
+
+
 PROBES = {n: f for n, f in list(globals().items()) if n.startswith('S_C') and callable(f)}
 
 if __name__ == '__main__':
